@@ -211,7 +211,7 @@ Section Fifo.
         split; [exact H3|]. split; [apply H5ns; unfold J5 in H5; cbn [carried] in H5; inversion H5; assumption|].
         split; [apply Hns|exact Hnp].
     - (* S_alive *)
-      destruct (alive (st s)); inversion Hstep; subst; clear Hstep.
+      destruct (alive (st s) || _); inversion Hstep; subst; clear Hstep.
       + repeat split; auto.
       + rewrite cf_next_send. unfold cf in Hsub. cbn [carried map filter] in Hsub.
         split; [apply (sublist_drop_carried _ _ (mid m)); exact Hsub|].
